@@ -10,12 +10,14 @@ PROPS = {
             # last run: magnitude alphabet (quick: paths of 1..2 vertices at extent/2048; thorough: 1..3 at extent/8192)
             "quick": [{"harness": "minkowski", "args": ["--pmax", 3, "--qmax", 3, "--dpmax", 3, "--dqmax", 2]},
                       {"harness": "minkowski", "args": ["--pk", 4, "--part", "base", "--pmax", 3, "--qmax", 3]},
-                      {"harness": "minkowski", "args": ["--part", "mag", "--mpmax", 3, "--mqmax", 2, "--div", 2048]}],
+                      {"harness": "minkowski", "args": ["--part", "mag", "--mpmax", 3, "--mqmax", 2, "--div", 2048]},
+                      {"harness": "minkowski", "args": ["--part", "long"]}],
             "thorough": [{"harness": "minkowski", "args": ["--part", "base", "--pmax", 4, "--qmax", 4]},
                          {"harness": "minkowski", "args": ["--part", "empty", "--pmax", 4, "--qmax", 4]},
                          {"harness": "minkowski", "args": ["--part", "D", "--dpmax", 3, "--dqmax", 3]},
                          {"harness": "minkowski", "args": ["--pk", 4, "--part", "base", "--pmax", 4, "--qmax", 4]},
-                         {"harness": "minkowski", "args": ["--part", "mag", "--mpmax", 3, "--mqmax", 3, "--div", 8192]}],
+                         {"harness": "minkowski", "args": ["--part", "mag", "--mpmax", 3, "--mqmax", 3, "--div", 8192]},
+                         {"harness": "minkowski", "args": ["--part", "long"]}],
         },
         "rule": "pattern = every ordered tuple of 2..3 (thorough 2..4) distinct points of the pattern board {(-10,-6),(9,-8),(12,7),(-3,11),(2,-1),(-12,4)} (also multiplied by 4), "
                 "path = every ordered tuple of 1..3 (thorough 1..4) distinct points of the first 6 points of board PS, every rotation, direction, non-convex and self-intersecting order included; "
@@ -26,6 +28,7 @@ PROPS = {
                 "only when isClosed) must each pass vf::general_position with R = 3 (every vertex and every proper self-crossing at least 3 units from every edge it does not lie on, exact on base board coordinates), "
                 "and no path edge may be parallel to a pattern edge (no zero-area parallelogram; the zero-length closing edge of a 1-point closed path is exempt: those cases are judged). "
                 "No condition is put on the arrangement of the parallelograms themselves (they share edges and overlap by construction). "
+                "Also: pattern x2^28 / x2^31 with path x2^32 (edge products beyond 2^63, coordinates below 2^40); and a many-quad family (patterns of 11..64 x paths of 22..95 vertices, 1024..2112 quads) judged by exact point probes at every parallelogram centroid and on a 97x97 lattice. "
                 "A case is non-trivial when the result is non-empty",
         "level_text": "Every case is executed on the real MinkowskiSum/MinkowskiDiff; the oracle builds from the statement the set of parallelograms {a+b} resp. {a-b} (path edge x pattern edge, the pattern always closed as in the code, "
                       "the path's closing edge only when isClosed) and the quadtree region engine requires the result's exact net winding number to be 1 at every point strictly inside at least one parallelogram and 0 at every point "
